@@ -331,9 +331,27 @@ Definition spec_case (c impl : sx) : sx :=
         | [_; f; inp] =>
             match d_ohg f, d_zs inp with
             | Some f', Some inp' =>
-                let expect := e_res (e_opt e_zs) (Ok (ref_eval (abs f') inp')) in
-                if sx_eqb impl expect then (if exact then ok_v else fail_v "oracle-ok-but-differs-from-model")
-                else fail_v "eval-differs-from-reference-interpreter"
+                let g := abs f' in
+                let r := ref_eval g inp' in
+                (* the value clause quantifies over single-writer diagrams; the refusal clause over all *)
+                let writes := List.app (p_ins g) (flat_map (@pe_tgt nat) (p_edges g)) in
+                let single_writer := Nat.eqb (List.length (nodup Nat.eq_dec writes)) (List.length writes) in
+                (* the interpreter must produce one value per target position (documented contract of `apply`) *)
+                let arity_ok := match ref_eval_mem g inp' with
+                                | Some (mem, _) => forallb (fun e => Nat.eqb (List.length (interp (pe_lbl e) (map (zget mem) (pe_src e))))
+                                                                             (List.length (pe_tgt e))) (p_edges g)
+                                | None => true end in
+                let single_writer := single_writer && arity_ok in
+                match r with
+                | None => if sx_eqb impl (L [Sy "ok"; Sy "none"]) then (if exact then ok_v else fail_v "oracle-ok-but-differs-from-model")
+                          else fail_v "eval-must-refuse-cyclic-diagram"
+                | Some _ =>
+                    if single_writer then
+                      if sx_eqb impl (e_res (e_opt e_zs) (Ok r)) then (if exact then ok_v else fail_v "oracle-ok-but-differs-from-model")
+                      else fail_v "eval-differs-from-reference-interpreter"
+                    else if sx_eqb impl (L [Sy "ok"; Sy "none"]) then fail_v "eval-refuses-acyclic-diagram"
+                    else if exact then ok_v else fail_v "differs-from-model"
+                end
             | _, _ => fail_v "eval-shape"
             end
         | _ => fail_v "eval-shape"
